@@ -15,7 +15,7 @@ ASSUMPTIONS = ["randint/shuffle are replaced by a scripted source: the theorems 
 
 
 def budget(tier):
-    return 1500 if tier == "quick" else 30000
+    return 6000 if tier == "quick" else 60000
 
 
 def dense_vector(rng, n, allow_missing):
